@@ -374,6 +374,59 @@ func runC13(c *core.Ctx) {
 			c13Walk(cs, e.B, t, "own")
 		}
 	})
+	// (1b') feedback of 64 KiB and more (tens of thousands of received packets with their deltas): the
+	// unchanged library refuses every such packet (its length arithmetic is 16 bits wide), which is
+	// allowed; a library that accepts one must decode it like any other
+	c.Section("over-64KiB", c.N(60, 1500), func(cs *core.Case) {
+		r := cs.R
+		n := r.Pick(32760, 40000, 65000, 65500, 65520, 65535)
+		m := &gen.TWCCModel{Sender: r.U32(), Media: r.U32(), Base: r.U16(), RefTime: r.U32() & 0xFFFFFF, FbCount: r.U8(), NoPFlag: r.Bool()}
+		big := r.Chance(1, 3)
+		for len(m.Status) < n {
+			sym := uint8(1)
+			if big || r.Chance(1, 50) {
+				sym = 2
+			}
+			if r.Chance(1, 200) {
+				sym = 0
+			}
+			for run := 1 + r.Intn(9000); run > 0 && len(m.Status) < n; run-- {
+				m.Status = append(m.Status, sym)
+			}
+		}
+		for i, s := range m.Status {
+			switch s {
+			case 1:
+				m.Deltas = append(m.Deltas, int64(i%251))
+			case 2:
+				m.Deltas = append(m.Deltas, int64(i%60001)-30000)
+			}
+		}
+		chunks := m.Chunks(r, gen.ChunkOpts{})
+		e, err := ref.Encode(m.Value(chunks), ref.RFC)
+		if err != nil {
+			cs.Count("over-64KiB/reference-refuses")
+			return
+		}
+		if len(e.B) < 65536 {
+			cs.Count("over-64KiB/below-64KiB")
+		} else {
+			cs.Count("over-64KiB/at-least-64KiB")
+		}
+		got, derr, pan := gUnmarshalOwn(gen.TWCC, cloneBytes(e.B))
+		cs.Eval(1)
+		cs.Distinct(core.Digest(e.B[:64], []byte{byte(len(e.B) >> 16), byte(len(e.B) >> 8), byte(len(e.B))}))
+		if pan != "" {
+			cs.Fail("panic/Unmarshal", core.W{"statuses": n, "input_len": len(e.B), "input_head_hex": mon.Hex(e.B, 48), "panic": pan})
+			return
+		}
+		if derr != nil {
+			cs.Count("over-64KiB/rejected")
+			return
+		}
+		cs.Count("over-64KiB/accepted")
+		c13Walk(cs, e.B, got.(*rtcp.TransportLayerCC), "own")
+	})
 	// (1c) chunks announcing 64 KiB and more of delta octets in a packet that declares far less
 	c.Section("announced-overflow", c.N(2000, 60000), func(cs *core.Case) {
 		r := cs.R
